@@ -41,7 +41,7 @@ impl Property for Occurrences {
     }
     fn budget(&self, tier: Tier) -> Budget {
         Budget {
-            cases: tier.pick(300_000, 20_000_000),
+            cases: tier.pick(1_500_000, 20_000_000),
             tape_len: 2500,
         }
     }
